@@ -362,6 +362,15 @@ partial def loop (h : IO.FS.Stream) (s : DS) : IO Unit := do
       let st' := (if s.openst == "ok" then openFd else openFdFailed) realHash st d s!"num:{100 + c.toNat!}" s.prov.toList
       IO.println s!"> open {s.openst}"
       loop h { putW w st' with prov := #[], openst := "ok" }
+  | ["fdopen", c, _] =>
+    match world c.toNat! with
+    | none => IO.println "> bad-op"; loop h s
+    | some (w, d, st) =>
+      if s.openst != "ok" then do IO.println "> bad-op"; loop h s
+      else
+        let st' := setFileFd realHash st d s!"num:{100 + c.toNat!}" s.prov.toList
+        IO.println "> fdopen ok"
+        loop h { putW w st' with prov := #[], openst := "ok" }
   | [] => loop h s
   | _ => if (ws.head?.getD "").startsWith "#" then loop h s else do IO.println "> bad-op"; loop h s
 
